@@ -98,7 +98,9 @@ harness!(ck_delete_query_kani, unwind 5, {
     let c_pre = count(&f, g, gi);
     let cx_pre = count(&f, fx, i1);
     let same_class = g == fx && (gi == i1 || gi == (i1 ^ f.verif_bucket_of(fx)));
-    chk!("query_iff_copy_stored", f.query(&x) == (cx_pre >= 1));
+    let qx = f.query(&x);
+    chk!("query_true_if_copy_stored", qx || cx_pre == 0);
+    chk!("query_false_if_no_copy", !qx || cx_pre >= 1);
     let d = f.delete(&x);
     chk!("delete_true_iff_copy_stored", d == (cx_pre >= 1));
     chk!("delete_len", f.len() == n - (d as usize));
